@@ -485,6 +485,9 @@ PROFILES = {
               'unit': {'seconds': 100}, 'buffer': {'ample': 95, 'wait': 5},
               'dists': ['normal', 'poisson', 'uniform'],
               'faults': {'F1': 0.0, 'F1m': 0.5, 'F3': 0.0, 'F4': 0.0}},
+    'gdelay': {'pairing': {'greedy': 60, 'dynamic': 40}, 'hetero': 0.9, 'nm': {2: 20, 3: 35, 4: 30, 5: 15},
+               'faults': {'F1': 0.75, 'F1m': 0.25, 'F3': 0.0, 'F4': 0.2}, 'buffer': {'ample': 95, 'wait': 5},
+               'dists': ['normal', 'poisson', 'uniform'], 'nobs': {1: 40, 2: 40, 3: 20}},
     'delay': {'faults': {'F1': 0.6, 'F1m': 0.4, 'F3': 0.0, 'F4': 0.2},
               'buffer': {'ample': 95, 'wait': 5}, 'monitor': 'real',
               'dur': {1: 25, 2: 30, 3: 25, 4: 20}, 'unit': {'seconds': 90, 'custom': 10},
